@@ -345,6 +345,23 @@ def run_case(ctx, k, rng):
                 m = int(rng.integers(1, 4))
                 idx = [int(rng.integers(0, len(pool))) for _ in range(m)]
                 hom0 = snaps[idx[0]]["hom"]
+                mixed = sorted({snaps[t]["hom"] for t in idx})
+                if op in ("lc", "avg") and len(mixed) > 1 and rng.random() < 0.7:
+                    # landscapes of different homological degree in one list (H0 and H1 of one data set averaged by mistake): rejected,
+                    # whether or not they share a grid and whether or not a grid is passed
+                    kwm = {} if rng.random() < 0.6 else {"start": 0.0, "stop": 8.0, "num_steps": 9}
+                    memb = [pool[t] for t in idx]
+                    if rng.random() < 0.5:      # put them on one common grid first
+                        g0 = memb[0]
+                        memb = [PLA(start=g0.start, stop=g0.stop, num_steps=g0.num_steps, values=np.array(g0.values, float, copy=True) * (i + 1),
+                                    hom_deg=snaps[t]["hom"]) for i, t in enumerate(idx)]
+                    try:
+                        r = lc_approx(memb, [1.0] * len(memb), **kwm) if op == "lc" else average_approx(memb, **kwm)
+                        ctx.check("mismatched hom_deg rejected", False, step=stepno, got=repr(r), through=op, degrees=mixed)
+                    except Exception:
+                        ctx.check("mismatched hom_deg rejected", True)
+                    verify_pool(stepno)
+                    continue
                 idx = [t for t in idx if snaps[t]["hom"] == hom0]
                 members = [pool[t] for t in idx]; ms = [snaps[t] for t in idx]
                 mode = int(rng.integers(0, 3))
